@@ -808,8 +808,45 @@ def merge(results, entry_rows):
                     reach.add(t)
                     why[t] = lk
                     todo.append(t)
+    def targets(lk):
+        f = funcs[lk]
+        out = set()
+        if f["kind"] == "CXXDestructorDecl":
+            return out
+        for c in f["calls"]:
+            kind, v = c.split(":", 1)
+            if kind == "loc":
+                tg = {v} if v in funcs else set()
+            elif kind == "virt":
+                tg = virt.get(v, set())
+            elif kind == "ctor":
+                cls, _, ty = v.partition("|")
+                d = records.get(cls, {})
+                if ty in d:
+                    tg = set(d[ty])
+                elif re.fullmatch(r"void \((const )?[\w:<>, ]*&&?\)|void \(\)", ty):
+                    tg = set()
+                else:
+                    tg = set().union(*d.values()) if d else set()
+            else:
+                tg = by_name.get(v, set())
+            out |= {t for t in tg if t in reach}
+        return out
+    # which roots reach which function (for the directed search of checks/C01.py)
+    succ = {lk: targets(lk) for lk in reach}
+    roots_of = {}
+    for r0 in sorted(roots):
+        seen, todo = {r0}, [r0]
+        while todo:
+            x = todo.pop()
+            for t in succ.get(x, ()):
+                if t not in seen:
+                    seen.add(t)
+                    todo.append(t)
+        for x in seen:
+            roots_of.setdefault(x, set()).add(r0)
     return dict(funcs=funcs, keys=keys, roots=roots, reach=reach, why=why, errors=errors, excluded=excluded,
-                missing_roots=missing_roots)
+                missing_roots=missing_roots, roots_of=roots_of)
 
 
 def rows_of(m, all_funcs=False):
@@ -877,8 +914,13 @@ def generate(repo, work, jobs=8, use_cache=True):
         f = m["funcs"][lk]
         if f["defined"] and f["sites"]:
             by_fn[fkey(f)] = via_chain(m, lk)
+    reached_from = {}
+    for lk in m["reach"]:
+        f = m["funcs"][lk]
+        if f["defined"] and (f["sites"] or f["guards"]):
+            reached_from[fkey(f)] = sorted(fkey(m["funcs"][r]) for r in m["roots_of"].get(lk, ()))
     out = dict(rows=rows, all_rows=rows_of(m, True), errors=m["errors"], excluded=m["excluded"], missing_roots=m["missing_roots"],
-               reach=len(m["reach"]), functions=len(m["funcs"]), via=by_fn,
+               reach=len(m["reach"]), functions=len(m["funcs"]), via=by_fn, reached_from=reached_from,
                roots=sorted(fkey(m["funcs"][lk]) for lk in m["roots"]))
     if use_cache:
         keep = {os.path.basename(j[2]) for j in jobs_l} | {os.path.basename(merged_cache)}
